@@ -28,7 +28,7 @@ from lov import spd, state
 from lov.core import HarnessError, Violation
 
 ID = "C08"
-BUDGET = {"quick": 150, "thorough": 600}
+BUDGET = {"quick": 600, "thorough": 1500}
 SHARDS = 16
 SHRINK_BUDGET = {"quick": 60, "thorough": 300}
 
@@ -72,15 +72,25 @@ ASSUMPTIONS = [
     "rhs and initial guess have the same number of dimensions (1-D with 1-D)",
 ]
 
-FAMS = ["sweep", "sweep", "sweep", "conv", "conv", "conv", "scale", "tridiag", "tridiag", "tridiag", "error"]
+FAMS = ["sweep", "sweep", "sweep", "conv", "conv", "conv", "scale", "scale", "tridiag", "tridiag", "tridiag", "error"]
 PRECONDS = ["none", "none", "none", "jacobi", "scalar", "exact", "lrd_rand", "lrd_spec"]
 COLKINDS = ["normal", "normal", "normal", "normal", "zero", "tiny", "small", "huge"]
 
 
-def _open_triggers():
+# Findings reported to the lead but possibly not yet merged into known_findings.json: the generator avoids a trigger while
+# an *open* entry names it, or while NO entry names it and it is listed here; once an entry exists its status decides
+# (status 'fixed: ...' re-opens the region to the search).
+PENDING = ("tridiag_max_iter_1",)
+
+
+def _avoided():
     from lov.findings import load
 
-    return {e.get("trigger") for e in load() if e.get("property") == ID and e.get("status", "open") == "open" and e.get("trigger")}
+    ents = [e for e in load() if e.get("property") == ID and e.get("trigger")]
+    named = {e["trigger"] for e in ents}
+    out = {e["trigger"] for e in ents if e.get("status", "open") == "open"}
+    out.update(t for t in PENDING if t not in named)
+    return out
 
 
 def _nest(flat, shape):
@@ -103,10 +113,10 @@ def _ints(draw, shape, lo, hi):
 def cases(draw, tier):
     fam = draw(st.sampled_from(FAMS))
     dt = draw(st.sampled_from(["f64", "f64", "f32"]))
-    big = draw(st.integers(0, 9)) == 0
-    nmax = (32 if tier == "quick" else 64) if big else 12
-    kappas = [k for k in spd.KAPPAS if dt == "f64" or k <= 1e4]
-    spec = draw(spd.specs(max_n=nmax, min_n=1, kappas=kappas, batches=((), (), (), (2,), (1,), (2, 1), (3,))))
+    sizes = [1, 2, 3, 4, 5, 6, 7, 8, 8, 10, 12, 12, 16, 16, 20, 24, 32, 32] + ([40, 48, 64, 64] if tier != "quick" else [])
+    nn = draw(st.sampled_from(sizes))
+    kappas = [k for k in (1.0, 10.0, 10.0, 1e2, 1e2, 1e4, 1e4, 1e6, 1e6) if dt == "f64" or k <= 1e4]
+    spec = draw(spd.specs(max_n=nn, min_n=nn, kappas=kappas, batches=((), (), (), (2,), (1,), (2, 1), (3,))))
     n, ab = spec["n"], list(spec["batch"])
     # right-hand side: batch equal to A's, dropped (broadcast against a batched A) or extra (against an unbatched A)
     rb = draw(st.sampled_from([ab, ab, [] if ab else [2]]))
@@ -149,8 +159,8 @@ def cases(draw, tier):
         case["J"] = draw(st.integers(2, min(40, 2 * n + 8)))
         case["by_size"] = draw(st.sampled_from([False, False, True]))
     elif fam == "conv":
-        args["tolerance"] = draw(st.sampled_from([None, None, 1.0, 1e-1, 1e-2, 1e-3, 1e-6, 1e-9]))
-        args["max_iter"] = draw(st.sampled_from([None, None, 1, 2, 5, 11, 12, 30, 100, 400]))
+        args["tolerance"] = draw(st.sampled_from([None, None, 1.0, 1e-1, 1e-2, 1e-3, 1e-4, 1e-6, 1e-6, 1e-9]))
+        args["max_iter"] = draw(st.sampled_from([None, None, 1, 2, 5, 11, 12, 30, 30, 100, 100, 400]))
         case["settings"] = {
             "cg_tolerance": draw(st.sampled_from([1.0, 1.0, 0.1, 1e-2, 1e-4])),
             "max_cg_iterations": draw(st.sampled_from([1000, 1000, 50, 200])),
@@ -171,6 +181,8 @@ def cases(draw, tier):
         args["max_tridiag_iter"] = mti
         lo = 20 if mti is None else mti
         args["max_iter"] = lo + draw(st.sampled_from([0, 0, 1, 5, 40]))
+        if args["max_iter"] == 1 and "tridiag_max_iter_1" in _avoided():
+            args["max_iter"] = 2  # F-C08-1: T = [[0]] is returned when the loop exits in its first iteration
         args["tolerance"] = draw(st.sampled_from([0.0, 1e-3, 1.0]))
         if draw(st.integers(0, 2)) == 0:
             args["sua"] = draw(st.sampled_from([0.0, 1e-3, 1e-6]))
@@ -265,7 +277,9 @@ def _system(case):
     S.lamA = torch.linalg.eigvalsh(S.A)
     if float(S.lamA.min()) <= 0:
         raise HarnessError("generated matrix is not SPD after the cast")
-    if S.dtn == "f64" and float((S.lamA - w.flip(-1)).abs().max()) > 1e-10 * float(w.max()):
+    # (spd.spectrum does not promise an ordering, e.g. one_outlier with kappa < 2: compare as sets; the oracle only ever
+    # uses the measured eigenvalues S.lamA)
+    if S.dtn == "f64" and float((S.lamA - w.sort(-1).values).abs().max()) > 1e-10 * float(w.max()):
         raise HarnessError("spectrum of the built matrix differs from the requested one")
     r = case["rhs"]
     S.t = t = r["t"]
@@ -389,3 +403,550 @@ def _brief(S, pc, args):
 
 def _anorm(S, d):
     return (d * (S.Af @ d)).sum(-2).clamp_min(0).sqrt()
+
+
+# ---------------------------------------------------------------------------------------------------------------
+# bounds (per column; tensors of shape (*B, t))
+# ---------------------------------------------------------------------------------------------------------------
+class Bounds:
+    """All quantities of the oracle for one (system, preconditioner, eps, stop_updating_after).
+
+    The routine solves the column-normalised system A y = b/||b|| (beta = ||b||, x = beta y) and
+      * skips an update when the computed p^T A p < eps, restarts the direction when the previous r^T z < eps.
+        In CG  p^T A p >= lmin(M) r^T z  and  r^T z = r^T P^-1 r >= ||r||^2 / lmax(P), so either can only happen once
+        ||r||^2 < eps lmax(P) max(1, 1/lmin(M));
+      * freezes a column once ||r|| < stop_updating_after;
+      hence progress as in exact CG is guaranteed while ||r|| >= thr_r = max(sua, sqrt(eps lmax(P) max(1,1/lmin(M)))), and
+      below it ||e||_A = ||r||_{A^-1} <= thr_r / sqrt(lmin(A)).  C_FLOOR=2 covers the rounding of the tested quantities.
+      * rounding: the recursively updated residual drifts from b - A y_j by at most  D_r(j) = C_FP (n+j) u lmax(A) Theta,
+        Theta >= max_i ||y_i||  (Greenbaum 1997), Theta = ||y*|| + ||e_0||_A / sqrt(lmin(A));  D_A = D_r / sqrt(lmin(A)).
+      * the reference x* (float64 solve + one refinement step) carries e_ref = 64 n 2^-53 kappa(A) ||x*||_A.
+    """
+
+    def __init__(self, S, pc, args):
+        self.S, self.pc = S, pc
+        n, u = S.n, S.u
+        B = tuple(S.bshape)
+        self.sua = float(args["sua"]) if args.get("sua") is not None else SUA_DEFAULT
+        lamM = pc["lamM"].expand(*B, n)
+        self.lmM = lamM[..., 0].unsqueeze(-1)
+        self.lMM = lamM[..., -1].unsqueeze(-1)
+        self.kM = self.lMM / self.lmM
+        self.lPmax = pc["lamPmax"].expand(*B).unsqueeze(-1) if B else pc["lamPmax"].reshape(()).unsqueeze(-1)
+        self.kP = pc["kP"].expand(*B).unsqueeze(-1) if B else pc["kP"].reshape(()).unsqueeze(-1)
+        self.dom = C_KAPPA * n * u * self.kM * self.kP
+        self.dom_ok = bool((self.dom <= DOMAIN_MAX).all())
+        kprime = self.kM * (1 + self.dom)
+        self.rho = (kprime.sqrt() - 1) / (kprime.sqrt() + 1)
+        self.thr_r = torch.maximum(
+            torch.full_like(self.lmM, self.sua), (S.eps_dt * self.lPmax * torch.clamp(1.0 / self.lmM, min=1.0)).sqrt()
+        )
+        x0 = S.x0 if S.x0 is not None else torch.zeros_like(S.xs)
+        self.x0 = x0
+        self.e0 = _anorm(S, x0 - S.xs)
+        self.xsA = _anorm(S, S.xs)
+        self.e_ref = 64.0 * n * U["f64"] * (S.lmax / S.lmin) * self.xsA
+        self.beta = torch.where(S.iszero, torch.ones_like(S.beta), S.beta)  # the routine's own rhs_norm
+        self.theta = (S.xs.norm(dim=-2) + self.e0 / S.lmin.sqrt()) / self.beta
+
+    def D_r(self, j):
+        """Normalised residual gap after j iterations."""
+        return C_FP * (self.S.n + j) * self.S.u * self.S.lmax * self.theta
+
+    def floor(self, j):
+        S = self.S
+        return self.beta * (C_FLOOR * self.thr_r + self.D_r(j)) / S.lmin.sqrt() + self.e_ref
+
+    def bound(self, j):
+        """e_j <= min(1, 2 rho'^j) e_0 + floor(j); columns the routine declares zero (||b||<eps): e_j <= ||x*||_A."""
+        cheb = torch.clamp(2.0 * self.rho ** j, max=1.0) if j > 0 else torch.ones_like(self.rho)
+        gen = cheb * self.e0 + self.floor(j)
+        zero = self.e0 * (1 + 1e-12) + self.e_ref + self.S.lmin * 0
+        return torch.where(self.S.iszero, zero.expand_as(gen), gen)
+
+    def relres(self, x):
+        """True relative residual ||b - A x|| / ||b|| per column (0 for columns the routine declares zero)."""
+        S = self.S
+        r = (S.b - S.Af @ x).norm(dim=-2) / self.beta
+        return torch.where(S.iszero, torch.zeros_like(r), r)
+
+
+STATS = {}  # check-name -> largest observed/bound ratio (evidence: how much room each tolerance has)
+
+
+def _ratio(name, obs, bnd):
+    r = float((obs / bnd.clamp_min(1e-300)).max()) if obs.numel() else 0.0
+    if not (r <= STATS.get(name, 0.0)):
+        STATS[name] = r
+    return r
+
+
+def coverage_extra():
+    return {
+        "tolerance_constants": {"C_FP": C_FP, "C_FLOOR": C_FLOOR, "C_KAPPA": C_KAPPA, "DOMAIN_MAX": DOMAIN_MAX, "u": U},
+        "max_observed_over_bound": {k: (v if v == v else "nan") for k, v in sorted(STATS.items())},
+    }
+
+
+# ---------------------------------------------------------------------------------------------------------------
+# family: sweep  -> monotone (i), chebyshev (ii), frozen (vi), zero (iv)
+# ---------------------------------------------------------------------------------------------------------------
+def _check_zero_cols(S, case, x, what):
+    """(iv) a column whose right-hand side is exactly zero gives exactly zero from the default zero initial guess."""
+    if S.x0 is not None:
+        return 0
+    zc = (S.b == 0).all(dim=-2)  # (*B, t)
+    if not bool(zc.any()):
+        return 0
+    bad = (x != 0).any(dim=-2) & zc
+    if bool(bad.any()):
+        _fail("zero", what, "value", "zero right-hand-side column gives max |x| = %.3g (%s)" % (float(x.abs().amax(-2)[bad].max()), _brief(S, S.pc0, case["args"])))
+    return int(zc.sum())
+
+
+def _sweep_iterates(S, pc, args, J, settings, what):
+    """x_1 .. x_J by re-running with max_iter = j (tolerance 0: no early exit); deterministic, so run j returns iterate j."""
+    xs = []
+    for j in range(1, J + 1):
+        a = dict(args)
+        a.update({"n_tridiag": 0, "tolerance": 0.0, "max_iter": j, "max_tridiag_iter": j})
+        xs.append(_run(S, pc, a, settings=settings, what=what)["x"])
+    return xs
+
+
+def _fam_sweep(S, case, labels):
+    args = case["args"]
+    pc = S.pc0
+    Bd = Bounds(S, pc, args)
+    J = case["J"]
+    settings = {"terminate_cg_by_size": True} if case.get("by_size") else {}
+    its = [Bd.x0] + _sweep_iterates(S, pc, args, J, settings, "sweep")
+    jeff = [min(j, S.n) if case.get("by_size") else j for j in range(J + 1)]
+    e = [_anorm(S, x - S.xs) for x in its]
+    desc = _brief(S, pc, args)
+    # (ii) chebyshev + floor
+    if Bd.dom_ok:
+        for j in range(1, J + 1):
+            bnd = Bd.bound(jeff[j])
+            nzc = ~S.iszero
+            cheb_part = (bnd - Bd.floor(jeff[j]))[nzc]
+            _ratio("floor_usage", (e[j][nzc] - cheb_part).clamp_min(0), Bd.floor(jeff[j])[nzc])
+            strict = nzc & (2.0 * Bd.rho ** jeff[j] < 1.0).expand_as(nzc)
+            _ratio("chebyshev_rate_part", e[j][strict], bnd[strict])
+            if _ratio("chebyshev", e[j], bnd) > 1.0:
+                i = int(torch.argmax((e[j] / bnd).reshape(-1)))
+                _fail(
+                    "chebyshev",
+                    "sweep",
+                    "value",
+                    "iterate %d: ||x_j-x*||_A = %.4g > bound %.4g (e_0 = %.4g, rho'=%.6f, floor=%.3g) %s"
+                    % (j, float(e[j].reshape(-1)[i]), float(bnd.reshape(-1)[i]), float(Bd.e0.reshape(-1)[i]), float(Bd.rho.max()), float(Bd.floor(jeff[j]).reshape(-1)[i]), desc),
+                )
+        # (i) monotone
+        for j in range(J):
+            grow = 1.0 + C_FP * (S.n + j) * S.u * Bd.kM * Bd.kP
+            bnd = e[j] * grow + Bd.floor(jeff[j + 1])
+            # statistic: the observed increase relative to the allowed increase
+            if _ratio("monotone", (e[j + 1] - e[j]).clamp_min(0), bnd - e[j]) > 1.0:
+                i = int(torch.argmax((e[j + 1] / bnd).reshape(-1)))
+                _fail(
+                    "monotone",
+                    "sweep",
+                    "value",
+                    "A-norm error grows from %.6g (budget %d) to %.6g (budget %d); allowed %.6g; %s"
+                    % (float(e[j].reshape(-1)[i]), j, float(e[j + 1].reshape(-1)[i]), j + 1, float(bnd.reshape(-1)[i]), desc),
+                )
+        labels.append("domain:ok")
+    else:
+        labels.append("domain:skipped")
+    # (vi) a column certainly frozen after budget j (true residual + drift below stop_updating_after) never changes again
+    nfrozen = 0
+    for j in range(J):
+        cert = ((Bd.relres(its[j]) + Bd.D_r(jeff[j])) * (1 + 1e-3) < Bd.sua) & ~S.iszero
+        if j == 0:
+            continue  # x_0 is the caller's guess; the routine returns (x_0 / ||b||) * ||b||, equal only up to rounding
+        if bool(cert.any()):
+            nfrozen += 1
+            changed = (its[j + 1] != its[j]).any(dim=-2) & cert
+            if bool(changed.any()):
+                d = (its[j + 1] - its[j]).abs().amax(-2)[changed].max()
+                _fail(
+                    "frozen",
+                    "sweep",
+                    "value",
+                    "column with relative residual %.3g < stop_updating_after=%.3g after budget %d still changes at budget %d (max |dx| = %.3g) %s"
+                    % (float(Bd.relres(its[j])[changed].max()), Bd.sua, j, j + 1, float(d), desc),
+                )
+    labels.append("frozen:%s" % ("certified" if nfrozen else "none"))
+    nz = 0
+    for x in its[1:]:
+        nz = _check_zero_cols(S, case, x, "sweep")
+    labels.append("zerocols:%d" % min(nz, 1))
+    labels.append("J:%d" % (10 * (J // 10)))
+    reached = bool((e[-1] <= 2 * Bd.floor(jeff[-1])).any())
+    labels.append("sweep_reached_floor:%s" % reached)
+
+
+# ---------------------------------------------------------------------------------------------------------------
+# family: conv  -> residual (iii), chebyshev at the performed iteration count (ii), precond (vii), zero (iv)
+# ---------------------------------------------------------------------------------------------------------------
+def _check_at_count(S, Bd, res, name, what, desc):
+    """The returned iterate is iterate k (k = matmul calls - 1): e_k <= min(1, 2 rho'^k) e_0 + floor(k)."""
+    if not Bd.dom_ok:
+        return
+    k = res["iters"]
+    if S.cap_by_size:
+        k = min(k, S.n)
+    e = _anorm(S, res["x"] - S.xs)
+    bnd = Bd.bound(k)
+    nzc = ~S.iszero
+    _ratio(name + "_floor_usage", (e - (bnd - Bd.floor(k))).clamp_min(0)[nzc], Bd.floor(k)[nzc])
+    if _ratio(name, e, bnd) > 1.0:
+        i = int(torch.argmax((e / bnd).reshape(-1)))
+        _fail(
+            name,
+            what,
+            "value",
+            "after %d iterations ||x-x*||_A = %.4g > bound %.4g (e_0 = %.4g, rho'=%.6f, floor=%.3g) %s"
+            % (k, float(e.reshape(-1)[i]), float(bnd.reshape(-1)[i]), float(Bd.e0.reshape(-1)[i]), float(Bd.rho.max()), float(Bd.floor(k).reshape(-1)[i]), desc),
+        )
+
+
+def _fam_conv(S, case, labels):
+    args = dict(case["args"])
+    cell = dict(case.get("settings") or {})
+    pc = S.pc0
+    Bd = Bounds(S, pc, args)
+    desc = _brief(S, pc, args) + " settings=%s" % cell
+    S.cap_by_size = bool(cell.get("terminate_cg_by_size"))
+    # max_tridiag_iter defaults to settings.max_lanczos_quadrature_iterations (20) and must not exceed max_iter
+    eff_max = args["max_iter"] if args.get("max_iter") is not None else cell.get("max_cg_iterations", 1000)
+    args["max_tridiag_iter"] = min(20, eff_max)
+    res = _run(S, pc, args, settings=cell, what="conv")
+    tol = args["tolerance"] if args.get("tolerance") is not None else cell.get("cg_tolerance", 1.0)
+    k = res["iters"]
+    labels.append("warned:%s" % res["warned"])
+    labels.append("iters:%s" % ("0" if k == 0 else "1-10" if k <= 10 else "11" if k == 11 else "12-99" if k < 100 else ">=100"))
+    labels.append("tol:%s" % ("setting" if case["args"].get("tolerance") is None else "arg"))
+    labels.append("max_iter:%s" % ("setting" if case["args"].get("max_iter") is None else "arg"))
+    labels.append("by_size:%s" % S.cap_by_size)
+    if k > eff_max or (S.cap_by_size and k > S.n):
+        _fail("residual", "conv", "iters", "%d iterations performed, limit %s (n=%d) %s" % (k, eff_max, S.n, desc))
+    # (iii) no NumericalWarning => the mean (over batch and columns) true relative residual is below the tolerance.
+    #   The code tests the recursively updated residual in the case dtype: + drift D_r(k), and 1e-3 for the rounded norm/mean.
+    #   k == 0 is the 'solved right away' exit: every residual is below stop_updating_after instead.
+    if not res["warned"]:
+        rr = Bd.relres(res["x"])
+        lim = (tol if k > 0 else Bd.sua) * (1 + 1e-3) + float(Bd.D_r(k).expand_as(rr).mean())
+        obs = float(rr.mean())
+        _ratio("residual", torch.tensor(obs), torch.tensor(lim))
+        if not obs <= lim:
+            _fail(
+                "residual",
+                "conv",
+                "value",
+                "no NumericalWarning after %d iterations but mean ||b-Ax||/||b|| = %.4g > tolerance %.4g (+drift %.2g) %s" % (k, obs, tol, lim - tol, desc),
+            )
+    _check_at_count(S, Bd, res, "chebyshev", "conv", desc)
+    nz = _check_zero_cols(S, case, res["x"], "conv")
+    labels.append("zerocols:%d" % min(nz, 1))
+    # (vii) two SPD preconditioners run to convergence (tolerance 0, Jconv iterations): each limit is within its own bound
+    #       of x*, and the two limits agree within the sum of the two bounds.
+    S.cap_by_size = False
+    J = case["Jconv"]
+    a2 = {k_: v for k_, v in case["args"].items() if k_ in ("eps", "sua")}
+    a2.update({"tolerance": 0.0, "max_iter": J, "max_tridiag_iter": 1})
+    pc2 = _precond(S, case["pre2"], {})
+    if pc2["kind"] == pc["kind"]:
+        labels.append("precond_pair:same")
+        return
+    Bd2 = Bounds(S, pc2, a2)
+    r1 = _run(S, pc, a2, what="precond")
+    r2 = _run(S, pc2, a2, what="precond")
+    _check_at_count(S, Bd, r1, "precond_limit", "conv:" + pc["kind"], desc)
+    _check_at_count(S, Bd2, r2, "precond_limit", "conv:" + pc2["kind"], _brief(S, pc2, a2))
+    if Bd.dom_ok and Bd2.dom_ok:
+        d = _anorm(S, r1["x"] - r2["x"])
+        bnd = Bd.bound(J) + Bd2.bound(J)
+        tight = bool((bnd < 1e-2 * Bd.xsA.clamp_min(1e-300))[~S.iszero].any())
+        labels.append("precond_pair:%s" % ("tight" if tight else "loose"))
+        if _ratio("precond", d, bnd) > 1.0:
+            i = int(torch.argmax((d / bnd).reshape(-1)))
+            _fail(
+                "precond",
+                "%s-vs-%s" % (pc["kind"], pc2["kind"]),
+                "value",
+                "limits differ: ||x_P1 - x_P2||_A = %.4g > %.4g (||x*||_A = %.4g) %s" % (float(d.reshape(-1)[i]), float(bnd.reshape(-1)[i]), float(Bd.xsA.reshape(-1)[i]), desc),
+            )
+    else:
+        labels.append("precond_pair:domain_skipped")
+
+
+# ---------------------------------------------------------------------------------------------------------------
+# family: scale  -> scaling law (v)
+# ---------------------------------------------------------------------------------------------------------------
+def _fam_scale(S, case, labels):
+    """cg(alpha B; alpha x0) = alpha cg(B; x0).
+
+    The routine normalises every column, so for alpha = +-2^k every intermediate quantity of the two runs is identical
+    (scaling by a power of two commutes with rounding while nothing under/overflows): compared to 8u elementwise, and the
+    two runs must agree on the NumericalWarning.  For any other alpha the normalised right-hand sides differ by one
+    rounding and rounded CG trajectories separate, so only  ||x_alpha/alpha - x||_A <= bound(k1) + bound(k2)  is asserted.
+    Columns whose classification against eps changes under the scaling are left out (labelled)."""
+    args = dict(case["args"])
+    args["max_tridiag_iter"] = min(20, args["max_iter"])
+    alpha = float(case["alpha"])
+    pc = S.pc0
+    S.cap_by_size = False
+    Bd = Bounds(S, pc, args)
+    desc = _brief(S, pc, args) + " alpha=%r" % alpha
+    b2 = (S.b_lib.double() * alpha).to(S.dtype)
+    x02 = None if S.x0_lib is None else (S.x0_lib.double() * alpha).to(S.dtype)
+    beta2 = S.full(b2.double()).norm(dim=-2)
+    iszero2 = beta2 < S.eps_dt
+    stable = (iszero2 == S.iszero) & (((beta2 - S.eps_dt).abs() > 1e-3 * S.eps_dt))
+    r1 = _run(S, pc, args, what="scaling")
+    r2 = _run(S, pc, args, b_lib=b2, x0_lib=x02, what="scaling")
+    m = math.frexp(abs(alpha))[0]
+    lo, hi = (1e-12, 1e15) if S.dtn == "f32" else (1e-100, 1e100)
+    nzb = torch.where(S.iszero, torch.ones_like(S.beta), S.beta)
+    nzb2 = torch.where(S.iszero, torch.ones_like(S.beta), beta2)
+    inrange = bool(((nzb > lo) & (nzb < hi) & (nzb2 > lo) & (nzb2 < hi)).all())
+    x0ok = S.x0_lib is None or bool((x02.double() == S.x0_lib.double() * alpha).all())
+    exact = m == 0.5 and inrange and x0ok and bool((b2.double() == S.b_lib.double() * alpha).all())
+    labels.append("alpha:%s" % ("pow2" if exact else "general"))
+    if not bool(stable.all()):
+        labels.append("scale:threshold_crossing_cols_skipped")
+    want = r1["x"] * alpha
+    if exact:
+        if bool(stable.all()) and r1["warned"] != r2["warned"]:
+            _fail("scaling", "pow2", "warning", "NumericalWarning raised for one of cg(B), cg(%g B) only; %s" % (alpha, desc))
+        err = (r2["x"] - want).abs()
+        bnd = 8 * S.u * want.abs().amax(-2, keepdim=True).expand_as(want) + 1e-300
+        ok = stable.unsqueeze(-2).expand_as(err)
+        if _ratio("scaling_pow2", err[ok], bnd[ok]) > 1.0:
+            _fail("scaling", "pow2", "value", "cg(%g B) - %g cg(B): max abs %.4g, allowed %.4g; %s" % (alpha, alpha, float(err[ok].max()), float(bnd[ok].max()), desc))
+        return
+    if not Bd.dom_ok:
+        labels.append("domain:skipped")
+        return
+    d = _anorm(S, r2["x"] / alpha - r1["x"])
+    bnd = Bd.bound(r1["iters"]) + Bd.bound(r2["iters"])
+    if _ratio("scaling_general", d[stable], bnd[stable]) > 1.0:
+        dd = torch.where(stable, d / bnd, torch.zeros_like(d))
+        i = int(torch.argmax(dd.reshape(-1)))
+        _fail(
+            "scaling",
+            "general",
+            "value",
+            "||cg(%g B)/%g - cg(B)||_A = %.4g > %.4g (||x*||_A=%.4g) %s" % (alpha, alpha, float(d.reshape(-1)[i]), float(bnd.reshape(-1)[i]), float(Bd.xsA.reshape(-1)[i]), desc),
+        )
+
+
+# ---------------------------------------------------------------------------------------------------------------
+# family: tridiag  -> (viii)
+# ---------------------------------------------------------------------------------------------------------------
+def _fam_tridiag(S, case, labels):
+    """T must be the Lanczos matrix of M = P^-1/2 A P^-1/2 started at z = P^-1/2 r_0 / ||.||  (r_0 = b - A x_0).
+
+    structure (all rows): shape (n_tridiag, *batch, m, m), 1 <= m <= min(max_tridiag_iter, n, iterations), finite,
+      exactly symmetric, exactly zero outside the three diagonals.
+    leading block T_k, k = number of leading rows certified clean: row i is written from alpha_i, beta_{i-1}, which are the
+      true CG coefficients unless a safe division / the freeze mask fired, i.e. unless some residual r_0..r_i fell below
+      thr = C_FLOOR thr_r + D_r  (see Bounds).  The true residuals come from the budget sweep 1..m.
+      ritz:  eig(T_k) within [lmin(M) - tol, lmax(M) + tol], tol = C_FP (n+k) u G lmax(M) kappa(P)   (Cauchy interlacing;
+             Paige: rounded Lanczos keeps Ritz values inside the spectrum up to O(u ||M||); G = max_i ||r_{i-1}||/||r_i|| >= 1
+             because r_i is formed by cancellation from vectors of size ||r_{i-1}||, so alpha_i, beta_{i-1} carry relative
+             errors u G and the entries of T absolute errors u G lmax(M))
+      inv :  (T_k^-1)_11 = (e_0^2 - e_k^2) / (r_0^T P^-1 r_0)        (Gauss quadrature error of CG; exact in exact
+             arithmetic for every k, = z^T M^-1 z at full Krylov dimension where e_k = 0)
+      log :  |(log T_k)_11 - z^T log(M) z| <= lmax(M)/(2k) e_k^2/(r_0^T P^-1 r_0)   (from the remainder of the Gauss rule for
+             1/(x+t): E_t <= E_0 (lmax/(lmax+t))^(2k+1), integrated over t; = 0 at full Krylov dimension)
+      both + C_FP (n+k) u G kappa(M) kappa(P) (scale of the functional) for the rounded recurrences, + the e_ref / D_A terms.
+    """
+    args = dict(case["args"])
+    pc = S.pc0
+    cell = {"terminate_cg_by_size": True} if case.get("by_size") else {}
+    S.cap_by_size = bool(case.get("by_size"))
+    Bd = Bounds(S, pc, args)
+    desc = _brief(S, pc, args)
+    nt = args["n_tridiag"]
+    n = S.n
+    res = _run(S, pc, args, settings=cell, what="tridiag")
+    T = res["T"]
+    B = tuple(S.bshape)
+    mti = args["max_tridiag_iter"] if args.get("max_tridiag_iter") is not None else 20
+    if not torch.is_tensor(T) or T.dim() != len(B) + 3 or tuple(T.shape[: len(B) + 1]) != (nt,) + B or T.shape[-1] != T.shape[-2]:
+        _fail("tridiag", "structure", "shape", "tridiagonal has shape %s, expected (%d, *%s, m, m); %s" % (tuple(getattr(T, "shape", ())), nt, B, desc))
+    m = T.shape[-1]
+    if T.dtype != S.dtype:
+        _fail("tridiag", "structure", "dtype", "tridiagonal dtype %s != %s" % (T.dtype, S.dtype))
+    if not (1 <= m <= min(mti, n) and m <= max(res["iters"], 1)):
+        _fail("tridiag", "structure", "shape", "tridiagonal size m=%d outside 1..min(max_tridiag_iter=%d, n=%d, iterations=%d); %s" % (m, mti, n, res["iters"], desc))
+    T64 = T.double()
+    if not bool(torch.isfinite(T64).all()):
+        _fail("tridiag", "structure", "nan", "non-finite entries in the tridiagonal; %s" % desc)
+    if not torch.equal(T64, T64.transpose(-1, -2)):
+        _fail("tridiag", "structure", "value", "tridiagonal not symmetric: max |T-T^T| = %.3g; %s" % (float((T64 - T64.transpose(-1, -2)).abs().max()), desc))
+    idx = torch.arange(m)
+    off = (idx.unsqueeze(0) - idx.unsqueeze(1)).abs() > 1
+    if bool((T64[..., off] != 0).any()):
+        _fail("tridiag", "structure", "value", "non-zero entries outside the three diagonals (max %.3g); %s" % (float(T64[..., off].abs().max()), desc))
+    labels.append("m:%s" % ("1" if m == 1 else "2-5" if m <= 5 else "6-20" if m <= 20 else ">20"))
+    labels.append("m_vs_n:%s" % ("full" if m == n else "partial"))
+    _check_at_count(S, Bd, res, "chebyshev", "tridiag", desc)
+    _check_zero_cols(S, case, res["x"], "tridiag")
+    # budget sweep 1..m (same arguments, no tridiagonal, no early exit): iterate i of this run == iterate i of the run above
+    its = [Bd.x0] + _sweep_iterates(S, pc, {k: v for k, v in args.items() if k in ("eps", "sua")}, m, cell, "tridiag-sweep")
+    e = [_anorm(S, x - S.xs) for x in its]
+    rel = [Bd.relres(x) for x in its]
+    # quantities of the preconditioned operator
+    r0 = S.b - S.Af @ Bd.x0  # (*B, n, t)
+    if pc["Pinv"] is None:
+        Cm = None
+        rPr = (r0 * r0).sum(-2)
+        Mfull = S.Af
+    else:
+        Pinv = pc["Pinv"].expand(*B, n, n)
+        Cm = torch.linalg.cholesky(Pinv)
+        rPr = (r0 * (Pinv @ r0)).sum(-2)
+        Mfull = _sym(Cm.transpose(-1, -2) @ S.Af @ Cm)
+    lamM, VM = torch.linalg.eigh(Mfull)
+    zhat = r0 if Cm is None else Cm.transpose(-1, -2) @ r0
+    comp = VM.transpose(-1, -2) @ zhat  # (*B, n, t) components in the eigenbasis of M
+    wts = comp**2 / (comp**2).sum(-2, keepdim=True).clamp_min(1e-300)
+    Ginv = (wts / lamM.unsqueeze(-1)).sum(-2)
+    Glog = (wts * lamM.log().unsqueeze(-1)).sum(-2)
+    Lscale = torch.maximum(lamM[..., 0].log().abs(), lamM[..., -1].log().abs()).clamp_min(1.0).unsqueeze(-1)
+    nclean_hist = []
+    flatB = [()] if not B else [tuple(ix) for ix in torch.cartesian_prod(*[torch.arange(bs) for bs in B]).reshape(-1, len(B)).tolist()]
+    for bi in flatB:
+        for c in range(nt):
+            ix = bi + (c,)
+            if bool(S.iszero[ix]):
+                continue
+            k = 0
+            while k < m:
+                thr = C_FLOOR * float(Bd.thr_r[bi + (0,)]) + float(Bd.D_r(k)[ix])
+                if not float(rel[k][ix]) > thr:
+                    break
+                k += 1
+            nclean_hist.append(k)
+            if k == 0:
+                continue
+            Tk = T64[(c,) + bi][:k, :k]
+            lmM, lMM = float(Bd.lmM[bi + (0,)]), float(Bd.lMM[bi + (0,)])
+            kM, kP = float(Bd.kM[bi + (0,)]), float(Bd.kP[bi + (0,)])
+            # r_i is formed by subtracting vectors of size ||r_{i-1}||: row i of T carries a relative rounding error of
+            # order u ||r_{i-1}|| / ||r_i||  ->  growth factor G over the rows used
+            G = max([1.0] + [float(rel[i - 1][ix]) / float(rel[i][ix]) for i in range(1, k)])
+            fp = C_FP * (n + k) * S.u * kP * G
+            where = "column %d batch %s leading %d of %d rows; %s" % (c, bi, k, m, desc)
+            th, Sv = torch.linalg.eigh(Tk)
+            if Bd.dom_ok:
+                tolr = fp * lMM
+                lo_ex, hi_ex = (lmM - float(th[0])) / tolr, (float(th[-1]) - lMM) / tolr
+                _ratio("ritz", torch.tensor(max(lo_ex, hi_ex, 0.0)), torch.tensor(1.0))
+                if lo_ex > 1.0 or hi_ex > 1.0:
+                    _fail("tridiag", "ritz", "value", "Ritz values [%.6g, %.6g] outside the spectrum [%.6g, %.6g] of the preconditioned operator (tol %.3g); %s" % (float(th[0]), float(th[-1]), lmM, lMM, tolr, where))
+            if float(th[0]) <= 0:
+                if Bd.dom_ok:
+                    _fail("tridiag", "ritz", "value", "leading block of T not positive definite (min eig %.4g); %s" % (float(th[0]), where))
+                continue
+            if not Bd.dom_ok:
+                continue
+            w1 = Sv[0, :] ** 2
+            q_inv = float((w1 / th).sum())
+            q_log = float((w1 * th.log()).sum())
+            rp = float(rPr[ix])
+            e0, ek, er = float(e[0][ix]), float(e[k][ix]), float(Bd.e_ref[ix])
+            dA = float((Bd.beta * Bd.D_r(k) / S.lmin.sqrt())[ix])
+            slack_e = (2 * (e0 + ek) * er + 2 * er * er + 2 * ek * dA + dA * dA) / rp
+            want_inv = (e0 * e0 - ek * ek) / rp
+            tol_inv = fp * kM * float(Ginv[ix]) + slack_e
+            _ratio("quad_inv", torch.tensor(abs(q_inv - want_inv)), torch.tensor(tol_inv))
+            if not abs(q_inv - want_inv) <= tol_inv:
+                _fail("tridiag", "quadrature-inv", "value", "e1^T T^-1 e1 = %.10g but (e_0^2 - e_k^2)/(r0^T P^-1 r0) = %.10g (z^T M^-1 z = %.10g, tol %.3g); %s" % (q_inv, want_inv, float(Ginv[ix]), tol_inv, where))
+            gauss = lMM * (1 + Bd.dom.max().item()) / (2.0 * k) * (ek + dA + er) ** 2 / rp
+            tol_log = gauss + fp * kM * float(Lscale[bi + (0,)])
+            _ratio("quad_log", torch.tensor(abs(q_log - float(Glog[ix]))), torch.tensor(tol_log))
+            if not abs(q_log - float(Glog[ix])) <= tol_log:
+                _fail("tridiag", "quadrature-log", "value", "e1^T log(T) e1 = %.10g but z^T log(M) z = %.10g (Gauss remainder bound %.3g, tol %.3g); %s" % (q_log, float(Glog[ix]), gauss, tol_log, where))
+            if ek <= 1e-6 * e0:
+                labels.append("quad:full_dimension")
+    if nclean_hist:
+        labels.append("clean_rows:%s" % ("all" if min(nclean_hist) == m else "some" if max(nclean_hist) > 0 else "none"))
+
+
+# ---------------------------------------------------------------------------------------------------------------
+# family: error  -> (ix) NaNs / inconsistent iteration limits raise instead of returning
+# ---------------------------------------------------------------------------------------------------------------
+def _fam_error(S, case, labels):
+    kind = case["err"]
+    args = dict(case["args"])
+    pc = S.pc0
+    labels.append("err:" + kind)
+    A_lib, b_lib, cell = S.A_lib, S.b_lib, {}
+    if kind == "nan_A":
+        A_lib = S.A_lib.clone()
+        A_lib.view(-1)[case["pos"] % A_lib.numel()] = float("nan")
+        args["max_tridiag_iter"] = min(20, args["max_iter"])
+    elif kind == "nan_rhs":
+        b_lib = S.b_lib.clone()
+        b_lib.view(-1)[case["pos"] % b_lib.numel()] = float("nan")
+        args["max_tridiag_iter"] = min(20, args["max_iter"])
+    elif kind == "limits":
+        args["max_tridiag_iter"] = args["max_iter"] + 1 + case["pos"] % 5
+    elif kind == "limits_default":
+        # max_tridiag_iter defaults to settings.max_lanczos_quadrature_iterations
+        cell = {"max_lanczos_quadrature_iterations": args["max_iter"] + 1 + case["pos"] % 5}
+    else:
+        raise HarnessError("unknown error kind %r" % kind)
+    desc = _brief(S, pc, args) + " settings=%s" % cell
+    out = _run(S, pc, args, b_lib=b_lib, A_lib=A_lib, settings=cell, what="raises", expect_raise=True)
+    if out["raised"] is None:
+        res = out["out"][0] if isinstance(out["out"], tuple) else out["out"]
+        nn = int(torch.isnan(res).sum()) if torch.is_tensor(res) else -1
+        _fail("raises", kind, "returned", "linear_cg returned (result has %d NaN entries) instead of raising; %s" % (nn, desc))
+    labels.append("raised:" + type(out["raised"]).__name__)
+
+
+# ---------------------------------------------------------------------------------------------------------------
+# check
+# ---------------------------------------------------------------------------------------------------------------
+def check(case):
+    fam = case["fam"]
+    S = _system(case)
+    S.pc0 = _precond(S, case["pre"]["kind"], case["pre"])
+    labels = ["fam:" + fam, "dtype:" + S.dtn, "pre:" + case["pre"]["kind"], "family:" + case["spec"]["family"]]
+    kA = float((S.lamA[..., -1] / S.lamA[..., 0]).max())
+    labels.append("kappa:1e%d" % round(math.log10(max(kA, 1.0))))
+    labels.append("n:%s" % ("1" if S.n == 1 else "2-3" if S.n <= 3 else "4-12" if S.n <= 12 else "13-32" if S.n <= 32 else "33-64"))
+    labels.append("batch:%s" % ("none" if not S.bshape else "A=rhs" if list(case["spec"]["batch"]) == list(case["rhs"]["batch"]) else "broadcast"))
+    labels.append("cols:%d" % S.t)
+    if S.vector:
+        labels.append("rhs:vector")
+    for k in sorted(set(case["rhs"]["kinds"])):
+        labels.append("col:" + k)
+    labels.append("x0:%s" % ("given" if S.x0 is not None else "default"))
+    a = case.get("args", {})
+    labels.append("eps:%s" % ("default" if a.get("eps") is None else "%g" % a["eps"]))
+    labels.append("sua:%s" % ("default" if a.get("sua") is None else "%g" % a["sua"]))
+    FAMILIES[fam](S, case, labels)
+    special = any(k in ("zero", "tiny", "huge") for k in case["rhs"]["kinds"])
+    nontrivial = (kA >= 9.99 and S.n >= 4) or special or case["pre"]["kind"] != "none" or a.get("n_tridiag", 0) > 0 or fam == "error"
+    sample = {k: case[k] for k in ("fam", "dt", "pre", "args") if k in case}
+    sample["spec"] = {k: case["spec"][k] for k in ("n", "batch", "family", "kappa", "lmax")}
+    sample["rhs"] = {k: case["rhs"][k] for k in ("batch", "t", "kinds", "vector")}
+    return {"nontrivial": bool(nontrivial), "key": case, "labels": labels, "sample": sample}
+
+
+FAMILIES = {"sweep": _fam_sweep, "conv": _fam_conv, "scale": _fam_scale, "tridiag": _fam_tridiag, "error": _fam_error}
+
+
+def _trig_tridiag_max_iter_1(case):
+    a = case.get("args", {})
+    return case.get("fam") == "tridiag" and a.get("n_tridiag", 0) > 0 and a.get("max_iter") == 1
+
+
+TRIGGERS = {"tridiag_max_iter_1": _trig_tridiag_max_iter_1}
